@@ -132,6 +132,11 @@ func c17Deserialized(w *W) {
 	}
 	n := 0
 	hp.check = func(pj *simdjson.ParsedJson, docs []*ref.Node) (string, string) {
+		// the edited tape itself: every NOP of a gap jumps over NOPs only (a reader that is
+		// standing inside the gap must not jump over a live entry)
+		if err := tapeErr(pj, ref.TapeOpts{AllowNop: true, NopNoOvershoot: true}); err != nil {
+			return "edited tape violates the format: " + err.Error(), "edited-format"
+		}
 		for m := 0; m < 4; m++ {
 			n++
 			rt, what := roundTrip(pj, simdjson.CompressMode(m), simdjson.CompressMode((m+n)%4))
